@@ -85,6 +85,20 @@ def run(ctx, rep) -> None:
         v = sv[t['id']]['verdict']
         if v != 'ok':
             rep.classified(v if v in ('F5', 'F18') else '', f'{t["id"]}: Trace_Spawning: {v}', payload=t['spawning'])
+    # daemons beside change handlers on the same object: the executions must be behaviours of Handling.tla with conf.dh (Trace_Handling)
+    from vf import handling as H
+    mscs = H.gen_scenarios(ctx.seed, 60 if ctx.quick else 1200, 'mixed')
+    with ProcessPoolExecutor(16) as ex:
+        mtraces = list(ex.map(H.run_scenario, mscs, chunksize=4))
+    mv = H.judge(mtraces, rep, 'Trace_Handling[mixed]')
+    rep.evaluations += len(mtraces); rep.traces += len(mtraces)
+    for t in mtraces:
+        if any(e['ev'] in ('flagseen', 'cancel') for e in t['events']):
+            rep.nontrivial([[{k: x for k, x in e.items() if k != 't'} for e in t['events']], t['conf']])
+        if t['stall']:
+            rep.violation(f'{t["id"]}: event loop stalled', payload=t)
+        elif mv[t['id']]['verdict'] != 'accepted':
+            rep.violation(f'{t["id"]}: Trace_Handling: {mv[t["id"]]["verdict"]}', payload=t)
     for t in ttraces:
         if t['stall']:
             rep.violation(f'{t["id"]}: the event loop stalled while a timer was being stopped', payload=t)
